@@ -68,3 +68,22 @@ Theorem locked_reader_waits :
   trun (tinit 2) [(0, TEnter w_defvar); (1, TEnter r_locked)] = None /\
   exists st, trun (tinit 2) [(0, TEnter w_defvar); (0, TLeave); (1, TEnter r_locked)] = Some st /\ holder st = Some 1.
 Proof. split; [reflexivity|]. eexists. split; reflexivity. Qed.
+
+(* the instance lock: a synchronized instance's slot READ that does not take the lock is inside the slot map together
+   with a writer that does *)
+Definition w_slot : access := mkAc TSlots true true.
+Definition r_slot_unlocked : access := mkAc TSlots false false.
+Theorem unlocked_slot_read_overlaps_write_refuted :
+  exists st, trun (tinit 2) [(0, TEnter w_slot); (1, TEnter r_slot_unlocked)] = Some st /\
+             nth_error (within st) 0 = Some (Some w_slot) /\ nth_error (within st) 1 = Some (Some r_slot_unlocked) /\
+             conflict w_slot r_slot_unlocked = true.
+Proof. eexists. repeat split; reflexivity. Qed.
+
+(* what the probe table demands, for every operation: exactly the slot operations of a synchronized instance wait *)
+Theorem must_wait_spec : forall o sy, must_wait o sy = true <-> (sy = true /\ iop_uses o <> []).
+Proof.
+  intros o sy. unfold must_wait, uses_slots. destruct sy; simpl.
+  - destruct (iop_uses o); split; intros H; try discriminate; try (split; congruence); auto.
+    destruct H as [_ H]. congruence.
+  - split; [discriminate|]. intros [H _]. discriminate.
+Qed.
